@@ -23,19 +23,44 @@ Import ListNotations.
 (* ---------------------------------------------------------------------------------------------- *)
 Inductive cat := Lv | Rv.
 
+(* pointer families.  The projections produce views over fancy pointers:
+     transform_ptr<int, F, S*|S const*, Ref>   utility.hpp:78-157   (element_transformed; S = struct {int a; int b;})
+     move_ptr<int, int*>                       utility.hpp:24-66    (element_moved)
+   A transform_ptr family is (underlying pointer to const?, reference): the functor F does not enter overload resolution
+   after element_transformed has computed Ref = invoke_result_t<F const&, element_ref | element_cref>.  `int` and
+   `int const` (the reference of a value-returning functor and of its rebind to const) are one family. *)
+Inductive tk :=
+| TmR      (* transform_ptr<int, F, S*,       int&>        *)
+| TmC      (* transform_ptr<int, F, S*,       int const&>  : rebind<int const> of TmR (utility.hpp:86-95), or a const&-returning functor *)
+| TcC      (* transform_ptr<int, F, S const*, int const&>  *)
+| TmV      (* transform_ptr<int, F, S*,       int | int const> *)
+| TcV.     (* transform_ptr<int, F, S const*, int | int const> *)
+Inductive pfam :=
+| PI (pc : bool)      (* int* | int const*        *)
+| PT (t : tk)         (* transform_ptr            *)
+| PM.                 (* move_ptr<int, int*>      *)
+(* array_ref is produced over raw pointers and, by array_ref::element_moved, over move_ptr *)
+Inductive apf := A0 | A1 | AM.
+Definition apf_pf (a : apf) : pfam := match a with A0 => PI false | A1 => PI true | AM => PM end.
+
 Inductive kind :=
 | KArr                        (* multi::array<int,D>                                   *)
 | KSArr                       (* multi::static_array<int,D>                            *)
-| KARef (pc : bool)           (* multi::array_ref<int,D,int*|int const*>               *)
-| KSub (pc : bool)            (* multi::subarray<int,D,..>                             *)
-| KCSub (pc : bool)           (* multi::const_subarray<int,D,..>                       *)
-| KIt (c pc : bool)           (* array_iterator<int,D,ptr,IsConst = c>                 *)
-| KER (pc : bool)             (* elements_range_t<ptr, layout_t<D>>                    *)
-| KEI (pc : bool)             (* elements_iterator_t<ptr, layout_t<D>>                 *)
-| KCu (pc : bool)             (* cursor_t<ptr, D, strides>                             *)
-| KPt (pc : bool)             (* int* | int const*                                     *)
-| KSP (c pc : bool)           (* subarray_ptr<int,D,ptr,layout,IsConst = c>            *)
-| KElem.                      (* int: a reference to an element (int&, int const&, int&&) *)
+| KARef (a : apf)             (* multi::array_ref<int,D,ptr>                           *)
+| KSub (pf : pfam)            (* multi::subarray<int,D,ptr>                            *)
+| KCSub (pf : pfam)           (* multi::const_subarray<int,D,ptr>                      *)
+| KIt (c : bool) (pf : pfam)  (* array_iterator<int,D,ptr,IsConst = c>                 *)
+| KER (pf : pfam)             (* elements_range_t<ptr, layout_t<D>>                    *)
+| KEI (pf : pfam)             (* elements_iterator_t<ptr, layout_t<D>>                 *)
+| KCu (pf : pfam)             (* cursor_t<ptr, D, strides>                             *)
+| KPt (pf : pfam)             (* the element pointer itself                            *)
+| KSP (c : bool) (pf : pfam)  (* subarray_ptr<int,D,ptr,layout,IsConst = c>            *)
+| KElem                       (* int: a reference to an element (int&, int const&, int&&) *)
+(* struct-element arrays and views: modelled only as the sources of the projections *)
+| KArrS                       (* multi::array<S,D>                                     *)
+| KSubS (pc : bool)           (* multi::subarray<S,D,S*|S const*>                      *)
+| KCSubS (pc : bool)          (* multi::const_subarray<S,D,S*|S const*>                *)
+| KPtS (pc : bool).           (* S* | S const*                                         *)
 
 Record state := mkSt { sk : kind; sd : nat; sc : bool; scat : cat }.
 
@@ -43,12 +68,17 @@ Record state := mkSt { sk : kind; sd : nat; sc : bool; scat : cat }.
 Inductive outcome :=
 | To (s : state)      (* well-formed; the result expression has this state                         *)
 | ToVal               (* well-formed; a prvalue int (a copy, detached from the array)              *)
+| ToCopy (s : state)  (* well-formed; a prvalue owning array: a copy, detached from the array        *)
 | ToOther             (* well-formed; a type outside the modelled fragment (move_iterator, move_ptr views) *)
 | Mut                 (* a mutator that is accepted and instantiates: the elements can be written   *)
 | NoDef               (* accepted by overload resolution but only declared, never defined: a program using it does not link *)
 | No                  (* no viable overload / deleted: substitution failure                          *)
 | Hard                (* ill-formed, but not a substitution failure (body or return conversion does not compile) *)
-| NA.                 (* not a writability probe: assigning / swapping a copyable handle re-seats the handle *)
+| NA.                 (* outside the modelled fragment: assigning / swapping a copyable handle re-seats the handle; a conversion
+                         whose target type is not defined for the receiver; a struct-element receiver beyond the projections *)
+
+Inductive form := FI | FE | FA.              (* implicit, explicit (static_cast<T>), assignment to an lvalue T *)
+Inductive vtarget := VSub | VCSub | VARef.
 
 Inductive aop :=
 | AIndex | ACall0 | ACall1 | ACallAll | ACallRng | ACallRngIdx | ACallIdxRng
@@ -57,6 +87,18 @@ Inductive aop :=
 | ASliced | ASlicedS | AStrided | ATaked | ADropped | ARotated | AUnrotated | ATransposed | ATilde | AReversed
 | ADiagonal | APartitioned | AChunked | AHalved | AFlatted | AReindexed | ABlocked | ARange | AStenciled
 | ABroadcasted | AAsConst | ABase | ADataElements | AOrigin | AAddrOf | AAddressOf | AArrow
+(* (a) projections *)
+| AETransMP | AETransLR | AETransLC | AETransLV | AMemberCast | AReinterpretN
+| AReinterpret | AStaticCast | AStaticCastC | AConstCast | AElementMoved | AMoved
+(* (c) other members that hand out element access *)
+| AMutableBase | ACBase | AElementsAt | AApply | AData
+(* (b) conversions of a handle to the handle of the same family with IsConst = c' over the mutable (p' = false) / const
+   (p' = true) variant of its pointer: implicit, explicit, by assignment; comparison with it *)
+| AConv (f : form) (c' p' : bool) | AEqM | AEqC
+(* construction of a view from a view: subarray / const_subarray / array_ref over the mutable / const variant *)
+| AToView (t : vtarget) (e : bool) (p' : bool)
+(* copies into an owning array *)
+| AUPlus | ADecay | AToArr
 | AMove | ABindRef | ABindCRef
 | AAssign | AFill | ASwap | AMSwap.
 
@@ -67,6 +109,13 @@ Definition all_ops : list aop :=
    ASliced; ASlicedS; AStrided; ATaked; ADropped; ARotated; AUnrotated; ATransposed; ATilde; AReversed;
    ADiagonal; APartitioned; AChunked; AHalved; AFlatted; AReindexed; ABlocked; ARange; AStenciled;
    ABroadcasted; AAsConst; ABase; ADataElements; AOrigin; AAddrOf; AAddressOf; AArrow;
+   AETransMP; AETransLR; AETransLC; AETransLV; AMemberCast; AReinterpretN;
+   AReinterpret; AStaticCast; AStaticCastC; AConstCast; AElementMoved; AMoved;
+   AMutableBase; ACBase; AElementsAt; AApply; AData]
+  ++ flat_map (fun f => flat_map (fun c => map (fun p => AConv f c p) [false; true]) [false; true]) [FI; FE; FA]
+  ++ [AEqM; AEqC]
+  ++ flat_map (fun t => flat_map (fun e => map (fun p => AToView t e p) [false; true]) [false; true]) [VSub; VCSub; VARef]
+  ++ [AUPlus; ADecay; AToArr;
    AMove; ABindRef; ABindCRef;
    AAssign; AFill; ASwap; AMSwap].
 
@@ -119,6 +168,7 @@ Inductive delta := Same | Dec | Inc | One | Zero.
 Inductive kres :=
 | RT (k : kind) (dd : delta) (c : bool) (ct : cat)
 | RVal | ROther | RMut | RNoDef | RHard
+| RCopy                                (* a prvalue multi::array<int, D>: a copy of the elements *)
 | RDel.                                (* selected overload is deleted: substitution failure *)
 
 Definition ovl := list (qual * kres).
@@ -147,30 +197,83 @@ Definition ge2 (dc : dcl) : bool := match dc with D2 | D3p => true | _ => false 
 
 (* shorthands *)
 Definition V (k : kind) (dd : delta) : kres := RT k dd false Rv.          (* a prvalue view / iterator / range *)
-Definition E (c : bool) : kres := RT KElem Zero c Lv.                    (* int& (c = false) or int const& *)
-Definition P (pc : bool) : kres := RT (KPt pc) Zero false Rv.            (* a prvalue pointer *)
+
+(* the pointer to const of a family: std::pointer_traits<ptr>::rebind<int const> -- int const*; transform_ptr::rebind
+   (utility.hpp:86-95: the reference gets const added); move_ptr::rebind (utility.hpp:32-36: the plain pointer to const int) *)
+Definition cp (pf : pfam) : pfam :=
+  match pf with
+  | PI _ => PI true
+  | PT TmR => PT TmC
+  | PT t => PT t
+  | PM => PI true
+  end.
+(* std::pointer_traits<ptr>::rebind<int>: what static_array_cast<int>() and const_array_cast() name *)
+Definition sp (pf : pfam) : pfam := match pf with PI _ => PI false | _ => pf end.
+(* the mutable variant of a family: the target of the conversion ops with p' = false *)
+Definition mp (pf : pfam) : pfam := match pf with PI _ => PI false | PT TmC => PT TmR | _ => pf end.
+Definition variant (p' : bool) (pf : pfam) : pfam := if p' then cp pf else mp pf.
+(* the reference of the pointer is not a mutable one *)
+Definition pconst (pf : pfam) : bool :=
+  match pf with PI pc => pc | PT TmR => false | PT _ => true | PM => false end.
+Definition tk_eqb (a b : tk) : bool :=
+  match a, b with TmR, TmR | TmC, TmC | TcC, TcC | TmV, TmV | TcV, TcV => true | _, _ => false end.
+Definition pfam_eqb (a b : pfam) : bool :=
+  match a, b with
+  | PI x, PI y => Bool.eqb x y
+  | PT x, PT y => tk_eqb x y
+  | PM, PM => true
+  | _, _ => false
+  end.
+(* element_const_ptr is the same type as element_ptr (for a value-returning functor `int const` is not `int`) *)
+Definition cpfix (pf : pfam) : bool := match pf with PI true | PT TmC | PT TcC => true | _ => false end.
+Definition und_const (t : tk) : bool := match t with TcC | TcV => true | _ => false end.   (* the wrapped pointer is S const* *)
+(* the array_ref over a family, when there is one *)
+Definition apf_of (pf : pfam) : option apf :=
+  match pf with PI false => Some A0 | PI true => Some A1 | PM => Some AM | PT _ => None end.
+
+(* *p, p[n] of an element pointer: int& | int const& | int (a prvalue) | int&& *)
+Definition E (pf : pfam) : kres :=
+  match pf with
+  | PI pc => RT KElem Zero pc Lv
+  | PT TmR => RT KElem Zero false Lv
+  | PT TmC | PT TcC => RT KElem Zero true Lv
+  | PT TmV | PT TcV => RVal                    (* a value-returning functor: nothing to write to *)
+  | PM => RT KElem Zero false Rv               (* std::move_iterator: int&& *)
+  end.
+Definition P (pf : pfam) : kres := RT (KPt pf) Zero false Rv.            (* a prvalue pointer *)
+Definition PS (pc : bool) : kres := RT (KPtS pc) Zero false Rv.
+
+(* ---------------------------------------------------------------------------------------------- *)
+(* repairs proposed by this package (notes/patches_C16/0006-0008); false = the tree without them    *)
+(* ---------------------------------------------------------------------------------------------- *)
+Definition fx_sptr_conv : bool := true.      (* 06: subarray_ptr's generic converting constructor keeps IsConst *)
+Definition fx_tptr_conv : bool := true.      (* 07: transform_ptr's converting constructors require a convertible reference *)
+Definition fx_csub_proj : bool := true.      (* 08: the non-const overloads of element_transformed / member_cast move from const_subarray to subarray; 1-D member_cast() const -> pointer to const *)
 
 (* ---------------------------------------------------------------------------------------------- *)
 (* const_subarray<T, D, ptr>, D >= 2      array_ref.hpp:1017-1871                                   *)
-(*   pc: the pointer is int const*.  d1 = (D = 2): the (D-1)-dimensional item is the 1-D specialisation. *)
+(*   d1 = (D = 2): the (D-1)-dimensional item is the 1-D specialisation.                            *)
 (* ---------------------------------------------------------------------------------------------- *)
-Definition cs2 (pc : bool) (d1 : bool) (o : aop) : option ovl :=
-  let cv := V (KCSub pc) in
+Definition static_cast_res (pf : pfam) : kres :=            (* static_cast<rebind<int>>(base_) *)
+  match pf with PI true => RHard | _ => V (KSub (sp pf)) Same end.
+
+Definition cs2 (pf : pfam) (d1 : bool) (o : aop) : option ovl :=
+  let cv := V (KCSub pf) in
   match o with
   | AIndex => Some [(QCL, cv Dec)]                                   (* :1143 operator[](index) const& -> const_reference *)
   | AFront | ABack => Some [(QCL, cv Dec)]                           (* :1171-1172 *)
   | ACall0 => Some [(QCL, cv Same)]                                  (* :1528 *)
   | ACall1 => Some [(QCL, cv Dec)]                                   (* :1551 -> paren_aux_(index) const& :1547 *)
-  | ACallAll => Some [(QCL, E true)]                                 (* :1551-1554; ends in the 1-D operator[] const& :2838 *)
+  | ACallAll => Some [(QCL, E (cp pf))]                              (* :1551-1554; ends in the 1-D operator[] const& :2838 *)
   | ACallRng => Some [(QCL, cv Same)]                                (* :1539 range().rotated().paren_aux_().unrotated() *)
   | ACallRngIdx => Some [(QCL, cv Dec)]
   | ACallIdxRng =>                                                   (* operator[](i) then the (D-1) call with a range: *)
-      Some [(QCL, if d1 then V (KCSub true) Dec else cv Dec)]        (*   1-D range() const& is sliced() const& -> basic_const_array :2942 *)
-  | ABegin | AEnd | ACBegin | ACEnd => Some [(QCL, V (KIt true pc) Same)]   (* :1633-1639 const_iterator *)
+      Some [(QCL, if d1 then V (KCSub (cp pf)) Dec else cv Dec)]     (*   1-D range() const& is sliced() const& -> basic_const_array :2942 *)
+  | ABegin | AEnd | ACBegin | ACEnd => Some [(QCL, V (KIt true pf) Same)]   (* :1633-1639 const_iterator *)
   | AElements =>                                                     (* :1076-1076 *)
-      Some [(QC, V (KER true) Same)]
-  | AConstElements => Some [(QC, if pc then V (KER true) Same else RHard)]  (* :1077 returns elements_aux_() as const_elements_range *)
-  | AHome => Some [(QCL, V (KCu true) Same)]                         (* :1649 *)
+      Some [(QC, V (KER (cp pf)) Same)]
+  | AConstElements => Some [(QC, if cpfix pf then V (KER (cp pf)) Same else RHard)]  (* :1077 returns elements_aux_() as const_elements_range *)
+  | AHome => Some [(QCL, V (KCu (cp pf)) Same)]                      (* :1649 *)
   | ASliced => Some [(QCL, cv Same)]                                 (* :1277 *)
   | ASlicedS => Some [(QCL, cv Same)]                                (* :1335-1339 sliced(f,l).strided(s) on a prvalue *)
   | AStrided => Some [(QCL, cv Same); (QR, cv Same); (QL, cv Same)]  (* :1331-1333; const& -> const_subarray since the receiver fix *)
@@ -186,58 +289,83 @@ Definition cs2 (pc : bool) (d1 : bool) (o : aop) : option ovl :=
   | ABlocked => Some [(QCL, cv Same); (QL, cv Same)]                 (* :1279-1280 *)
   | ARange => Some [(QCL, cv Same)]                                  (* :1343 *)
   | AStenciled => Some [(QL, cv Same); (QR, cv Same); (QCL, cv Same)](* :1284, :1291, :1298 *)
-  | ABroadcasted => Some [(QCL, V (KCSub true) Inc)]                 (* :1368 element_const_ptr *)
-  | AAsConst => Some [(QC, V (KSub true) Same)]                      (* :1808 *)
-  | ABase => Some [(QC, P true)]                                     (* :236 base() const -> element_const_ptr *)
-  | AOrigin => Some [(QCL, P true)]                                  (* :255 origin() const& -> element_const_ptr *)
+  | ABroadcasted => Some [(QCL, V (KCSub (cp pf)) Inc)]              (* :1368 element_const_ptr *)
+  | AAsConst => Some [(QC, V (KSub (cp pf)) Same)]                   (* :1810 *)
+  | ABase => Some [(QC, P (cp pf))]                                  (* :236 base() const -> element_const_ptr *)
+  | AOrigin => Some [(QCL, P (cp pf))]                               (* :255 origin() const& -> element_const_ptr *)
   | AAssign => Some [(QN, RDel)]                                     (* :1036-1037 deleted *)
-  | AAddressOf | AAddrOf => Some [(QCL, V (KSP true pc) Same)]       (* :1596 addressof() const& -> const_ptr, :1601 operator&() const& *)
+  | AAddressOf | AAddrOf => Some [(QCL, V (KSP true pf) Same)]       (* :1596 addressof() const& -> const_ptr, :1601 operator&() const& *)
+  (* (a) the casts *)
+  | AStaticCast =>                                                   (* :1693-1713: every overload returns subarray<T2, D, rebind<T2>>; the const& one *)
+      Some [(QCL, static_cast_res pf); (QR, static_cast_res pf); (QL, static_cast_res pf)]   (*   for a non-const T2 is [[deprecated("violates constness")]] :1700 *)
+  | AStaticCastC => Some [(QCL, ROther); (QR, ROther); (QL, ROther)] (* subarray<int const, D, ..>: the element type is outside the fragment *)
+  | AConstCast => Some [(QC, V (KSub (sp pf)) Same)]                 (* :1802-1808 const_array_cast() const: the library's const_cast *)
+  | AReinterpret =>                                                  (* :1828 reinterpret_array_cast<T2>() const& -> aux_<T2, rebind<T2 const>>().as_const() *)
+      match pf with PI _ => Some [(QCL, V (KSub (PI true)) Same)] | _ => None end
+  (* (c) *)
+  | AMutableBase => Some [(QC, P pf)]                                (* :238 mutable_base() const -> element_ptr: a named way out *)
+  | ACBase => Some [(QC, P (cp pf))]                                 (* :240 *)
+  | AElementsAt => Some [(QCL, E (cp pf)); (QR, E (cp pf)); (QL, E (cp pf))]   (* :1310-1323: every overload goes through const_subarray::operator[] const& *)
+  | AApply => Some [(QCL, E (cp pf))]                                (* :1562 -> operator()(i...) const& *)
+  | AUPlus => Some [(QC, RCopy)]                                     (* :1114 operator+() const -> decay_type *)
+  | ADecay => Some [(QCL, RCopy)]                                    (* :1109 *)
   | _ => None
   end.
 
 (* ---------------------------------------------------------------------------------------------- *)
 (* const_subarray<T, 1, ptr>              array_ref.hpp:2682-3269                                   *)
 (* ---------------------------------------------------------------------------------------------- *)
-Definition cs1 (pc : bool) (o : aop) : option ovl :=
-  let cv := V (KCSub pc) in
+Definition cs1 (pf : pfam) (o : aop) : option ovl :=
+  let cv := V (KCSub pf) in
+  let cc := V (KCSub (cp pf)) in
   match o with
-  | AIndex => Some [(QCL, E true)]                                   (* :2838 -> const_reference *)
-  | AFront | ABack => Some [(QCL, E true)]                           (* :2840-2841 *)
+  | AIndex => Some [(QCL, E (cp pf))]                                (* :2838 -> const_reference *)
+  | AFront | ABack => Some [(QCL, E (cp pf))]                        (* :2840-2841 *)
   | ACall0 => Some [(QCL, cv Same)]                                  (* :2984 *)
-  | ACall1 | ACallAll => Some [(QC, E true)]                         (* :2986 operator()(index) const -> operator[] *)
-  | ACallRng => Some [(QCL, V (KCSub true) Same)]                    (* :2988 -> range -> sliced const& :2942 *)
-  | ABegin | AEnd | ACBegin | ACEnd => Some [(QCL, V (KIt true pc) Same)]  (* :3116-3124 *)
+  | ACall1 | ACallAll => Some [(QC, E (cp pf))]                      (* :2986 operator()(index) const -> operator[] *)
+  | ACallRng => Some [(QCL, cc Same)]                                (* :2988 -> range -> sliced const& :2942 *)
+  | ABegin | AEnd | ACBegin | ACEnd => Some [(QCL, V (KIt true pf) Same)]  (* :3116-3124 *)
   | AElements =>                                                     (* :2956-2956 *)
-      Some [(QC, V (KER true) Same)]
-  | ACElements => Some [(QC, if pc then V (KER true) Same else RHard)]     (* :2958 *)
-  | AHome => Some [(QCL, V (KCu true) Same)]                         (* :2805 *)
-  | ASliced => Some [(QCL, V (KCSub true) Same); (QL, cv Same); (QR, cv Same)]  (* :2942-2944 *)
-  | ASlicedS => Some [(QCL, V (KCSub true) Same)]                    (* :2980 *)
+      Some [(QC, V (KER (cp pf)) Same)]
+  | ACElements => Some [(QC, if cpfix pf then V (KER (cp pf)) Same else RHard)]     (* :2958 *)
+  | AHome => Some [(QCL, V (KCu (cp pf)) Same)]                      (* :2805 *)
+  | ASliced => Some [(QCL, cc Same); (QL, cv Same); (QR, cv Same)]   (* :2942-2944 *)
+  | ASlicedS => Some [(QCL, cc Same)]                                (* :2980 *)
   | AStrided => Some [(QCL, cv Same)]                                (* :2978 *)
   | ATaked => Some [(QCL, cv Same)]                                  (* :2903 *)
   | ADropped => Some [(QCL, cv Same)]                                (* :2923 *)
   | ARotated | AUnrotated => Some [(QCL, cv Same)]                   (* :3072-3073 *)
   | ATransposed | AFlatted => Some [(QCL, RDel)]                     (* :3075-3076 deleted *)
   | ADiagonal => Some [(QC, RDel)]                                   (* :2799 deleted *)
-  | AReversed => Some [(QCL, V (KCSub true) Same); (QL, cv Same); (QR, cv Same)]  (* :3059-3061 *)
+  | AReversed => Some [(QCL, cc Same); (QL, cv Same); (QR, cv Same)] (* :3059-3061 *)
   | APartitioned | AChunked | AHalved => Some [(QCL, cv Inc)]        (* :3026, :3035, :3014 *)
-  | AReindexed => Some [(QR, cv Same); (QL, cv Same); (QCL, V (KCSub true) Same)]   (* :2883-2893; const& -> basic_const_array *)
-  | ABlocked => Some [(QL, cv Same); (QR, cv Same); (QCL, V (KCSub true) Same)]     (* :2969-2977 *)
-  | ARange => Some [(QCL, V (KCSub true) Same)]                      (* :2982 -> sliced() on a const *this *)
-  | AStenciled => Some [(QL, cv Same); (QR, cv Same); (QCL, V (KCSub true) Same)]   (* :2978-2986 *)
+  | AReindexed => Some [(QR, cv Same); (QL, cv Same); (QCL, cc Same)]   (* :2883-2893; const& -> basic_const_array *)
+  | ABlocked => Some [(QL, cv Same); (QR, cv Same); (QCL, cc Same)]     (* :2969-2977 *)
+  | ARange => Some [(QCL, cc Same)]                                  (* :2982 -> sliced() on a const *this *)
+  | AStenciled => Some [(QL, cv Same); (QR, cv Same); (QCL, cc Same)]   (* :2978-2986 *)
   | ABroadcasted => Some [(QCL, cv Inc)]                             (* :2824 const_subarray<T, 2, ElementPtr> *)
-  | ABase => Some [(QC, P true)]                                     (* :236 *)
-  | AOrigin => Some [(QCL, P true)]                                  (* :255 *)
+  | ABase => Some [(QC, P (cp pf))]                                  (* :236 *)
+  | AOrigin => Some [(QCL, P (cp pf))]                               (* :255 *)
   | ASwap => Some [(QL, RNoDef)]                                     (* std::swap: move ctor :2759 public, operator=(const_subarray&&)& :2787 only declared *)
-  | AAddrOf => Some [(QCL, V (KSP true pc) Same)]                    (* :2769 operator&() const& -> const_subarray_ptr *)
+  | AAddrOf => Some [(QCL, V (KSP true pf) Same)]                    (* :2769 operator&() const& -> const_subarray_ptr *)
+  | AStaticCast => Some [(QC, static_cast_res pf)]                   (* :3228 static_array_cast<T2>() const -> subarray<T2, 1, rebind<T2>> *)
+  | AStaticCastC => Some [(QC, ROther)]
+  | AReinterpret =>                                                  (* :3287 reinterpret_array_cast<T2>() const& -> const_subarray<T2, 1, rebind<T2>> *)
+      match pf with PI false => Some [(QCL, V (KCSub (PI false)) Same)] | PI true => Some [(QCL, RHard)] | _ => None end
+  | AMutableBase => Some [(QC, P pf)]                                (* :238 *)
+  | ACBase => Some [(QC, P (cp pf))]                                 (* :240 *)
+  | AElementsAt => Some [(QCL, E (cp pf)); (QR, E (cp pf)); (QL, E (cp pf))]   (* :2907-2909 -> operator[] const& *)
+  | AApply => Some [(QCL, E (cp pf))]                                (* :2886 *)
+  | AUPlus => Some [(QC, RCopy)]                                     (* :2785 *)
+  | ADecay => Some [(QC, RCopy)]                                     (* :2754 *)
   | _ => None
   end.
 
-Definition csub (pc : bool) (dc : dcl) (o : aop) : option ovl :=
+Definition csub (pf : pfam) (dc : dcl) (o : aop) : option ovl :=
   match dc with
-  | D1 => cs1 pc o
-  | D2 => cs2 pc true o
-  | D3p => cs2 pc false o
+  | D1 => cs1 pf o
+  | D2 => cs2 pf true o
+  | D3p => cs2 pf false o
   | D0 => None
   end.
 
@@ -245,22 +373,24 @@ Definition csub (pc : bool) (dc : dcl) (o : aop) : option ovl :=
 (* subarray<T, D, ptr> : const_subarray<T, D, ptr>      array_ref.hpp:1911-2341                    *)
 (*   (true, l): `using const_subarray::f;` plus the overloads l;  (false, l): l hides the base's.  *)
 (* ---------------------------------------------------------------------------------------------- *)
-Definition wr (pc : bool) : kres := if pc then RHard else RMut.    (* a mutator body writes through the pointer *)
+(* a mutator body writes through the pointer: `*it = v` needs a mutable lvalue reference *)
+Definition writes (pf : pfam) : bool := match pf with PI false | PT TmR => true | _ => false end.
+Definition wr (pf : pfam) : kres := if writes pf then RMut else RHard.
 
-Definition sub_own (pc : bool) (dc : dcl) (o : aop) : option (bool * ovl) :=
-  let sv := V (KSub pc) in
+Definition sub_own (pf : pfam) (dc : dcl) (o : aop) : option (bool * ovl) :=
+  let sv := V (KSub pf) in
   let g2 := ge2 dc in
   match o with
-  | AIndex => Some (true, [(QR, if g2 then sv Dec else E pc); (QL, if g2 then sv Dec else E pc)])   (* :2178-2181 *)
+  | AIndex => Some (true, [(QR, if g2 then sv Dec else E pf); (QL, if g2 then sv Dec else E pf)])   (* :2178-2181 *)
   | ACall0 => Some (true, [(QL, sv Same); (QR, sv Same)])                                         (* :2224-2225 *)
-  | ACall1 => Some (true, [(QL, if g2 then sv Dec else E pc); (QR, if g2 then sv Dec else E pc)])  (* :2227, :2232 -> paren_aux_(index) :2203 *)
-  | ACallAll => Some (true, [(QL, E pc); (QR, E pc)])
+  | ACall1 => Some (true, [(QL, if g2 then sv Dec else E pf); (QR, if g2 then sv Dec else E pf)])  (* :2227, :2232 -> paren_aux_(index) :2203 *)
+  | ACallAll => Some (true, [(QL, E pf); (QR, E pf)])
   | ACallRng => Some (true, [(QL, sv Same); (QR, sv Same)])                                       (* :2210-2216 *)
   | ACallRngIdx | ACallIdxRng =>                                                                   (* 1-D: the variadic paren_aux_ body does not instantiate *)
       Some (true, [(QL, if g2 then sv Dec else RHard); (QR, if g2 then sv Dec else RHard)])
-  | ABegin | AEnd => Some (true, [(QR, V (KIt false pc) Same); (QL, V (KIt false pc) Same)])     (* :1960-1966 *)
-  | AHome => Some (true, [(QR, V (KCu pc) Same); (QL, V (KCu pc) Same)])                          (* :1971-1973 *)
-  | AFill => Some (false, [(QL, wr pc); (QR, wr pc)])                                              (* :1982-1992 *)
+  | ABegin | AEnd => Some (true, [(QR, V (KIt false pf) Same); (QL, V (KIt false pf) Same)])     (* :1960-1966 *)
+  | AHome => Some (true, [(QR, V (KCu pf) Same); (QL, V (KCu pf) Same)])                          (* :1971-1973 *)
+  | AFill => Some (false, [(QL, wr pf); (QR, wr pf)])                                              (* :1982-1992 *)
   | AStrided | ATaked | ADropped | ASliced =>
       Some (true, [(QR, sv Same); (QL, sv Same)])                                                 (* :1994-2004, :2189-2191 *)
   | ARotated | AUnrotated => Some (true, [(QR, sv Same); (QL, sv Same)])                          (* :2006-2012 *)
@@ -274,18 +404,28 @@ Definition sub_own (pc : bool) (dc : dcl) (o : aop) : option (bool * ovl) :=
   | APartitioned => Some (true, [(QL, sv Inc); (QR, sv Inc)])                                     (* :2250-2252 *)
   | AFlatted =>                                                                                    (* :2254-2261 *)
       Some (true, [(QL, if g2 then sv Dec else RHard); (QR, if g2 then sv Dec else RHard)])
-  | ABase => Some (false, [(QCL, P true); (QL, P pc); (QR, P pc)])                                (* :2038-2040 *)
-  | AAddrOf => Some (true, [(QR, V (KSP false pc) Same); (QL, V (KSP false pc) Same)])            (* :1942-1950 *)
+  | ABase => Some (false, [(QCL, P (cp pf)); (QL, P pf); (QR, P pf)])                             (* :2038-2040 *)
+  | AAddrOf => Some (true, [(QR, V (KSP false pf) Same); (QL, V (KSP false pf) Same)])            (* :1942-1950 *)
   | AAddressOf =>                                                                                  (* :1952-1954 *)
-      Some (false, [(QR, V (KSP false pc) Same); (QL, V (KSP false pc) Same); (QCL, V (KSP true pc) Same)])
+      Some (false, [(QR, V (KSP false pf) Same); (QL, V (KSP false pf) Same); (QCL, V (KSP true pf) Same)])
   | AElements =>                                                                                   (* :1975-1977 *)
-      Some (false, [(QL, V (KER pc) Same); (QR, V (KER pc) Same); (QCL, V (KER true) Same)])
-  | AOrigin => Some (true, [(QL, P pc); (QR, P pc)])                                              (* :2042-2044 *)
+      Some (false, [(QL, V (KER pf) Same); (QR, V (KER pf) Same); (QCL, V (KER (cp pf)) Same)])
+  | AOrigin => Some (true, [(QL, P pf); (QR, P pf)])                                              (* :2042-2044 *)
   | AAssign =>                                                                                     (* :2047, :2077, :2126 (&&), :2148 (const&&, declared only) *)
-      Some (false, [(QL, wr pc); (QR, wr pc); (QCR, RNoDef)])
+      Some (false, [(QL, wr pf); (QR, wr pf)] ++ match pf with PI _ => [(QCR, RNoDef)] | _ => [] end)   (* :2148 is constrained on the pointer being a raw pointer *)
   | ASwap =>                                                                                       (* :2058 friend swap(subarray&&, subarray&&); lvalues: std::swap via :1930, :2161 *)
-      Some (false, [(QR, wr pc); (QL, wr pc)])
-  | AMSwap => Some (false, [(QR, wr pc)])                                                          (* :2054 swap(subarray&&) && *)
+      Some (false, [(QR, wr pf); (QL, wr pf)])
+  | AMSwap => Some (false, [(QR, wr pf)])                                                          (* :2054 swap(subarray&&) && *)
+  | AReinterpret =>                                                                                (* :2275 using; :2278, :2289 &, && -> subarray<T2, D, rebind<T2>> *)
+      match pf with
+      | PI pc => Some (true, [(QL, if pc then RHard else sv Same); (QR, if pc then RHard else sv Same)])
+      | _ => None
+      end
+  | AElementMoved =>                                                                               (* :2338-2339 &, && -> subarray<T, D, move_ptr<T, ptr>> *)
+      Some (false, [(QL, match pf with PI false => V (KSub PM) Same | _ => ROther end);
+                    (QR, match pf with PI false => V (KSub PM) Same | _ => ROther end)])
+  | AMoved => Some (false, [(QN, ROther)])                                                         (* :1926 move() -> move_subarray *)
+  | AApply => Some (true, [(QR, E pf); (QL, E pf)])                                               (* :2259-2260 *)
   | _ => None
   end.
 
@@ -308,23 +448,36 @@ Definition inherit (base : option ovl) (own : option (bool * ovl)) : option ovl 
   | Some (false, l) => Some l
   end.
 
-Definition sub (pc : bool) (dc : dcl) (o : aop) : option ovl := inherit (csub pc dc o) (sub_own pc dc o).
+Definition sub (pf : pfam) (dc : dcl) (o : aop) : option ovl := inherit (csub pf dc o) (sub_own pf dc o).
 
 (* ---------------------------------------------------------------------------------------------- *)
 (* array_ref<T, D, ptr> : subarray<T, D, ptr>           array_ref.hpp:3293-3602                    *)
 (* ---------------------------------------------------------------------------------------------- *)
-Definition aref_own (pc : bool) (dc : dcl) (o : aop) : option (bool * ovl) :=
+Definition acp (a : apf) : apf := A1.                      (* array_ref over element_const_ptr: int const* for all three *)
+Definition aref_own (a : apf) (dc : dcl) (o : aop) : option (bool * ovl) :=
+  let pf := apf_pf a in
   match o with
   | AElements =>                                                                                   (* :3452-3454 flat 1-D array_ref *)
-      Some (false, [(QCL, V (KARef true) One); (QL, V (KARef pc) One); (QR, V (KARef pc) One)])
-  | ACElements => Some (false, [(QCL, V (KARef true) One)])                                        (* :3460 *)
-  | ADataElements => Some (false, [(QCL, P true); (QL, P pc); (QR, P pc)])                         (* :3391, :3508-3509 *)
-  | AAssign => Some (true, [(QL, wr pc); (QR, wr pc)])                                             (* :3383 using, :3393-3438 *)
-  | ASwap => Some (false, [(QR, wr pc)])                                                           (* copy/move ctor deleted :3314, :3319: only swap(subarray&&, subarray&&) *)
+      Some (false, [(QCL, V (KARef (acp a)) One); (QL, V (KARef a) One); (QR, V (KARef a) One)])
+  | ACElements => Some (false, [(QCL, V (KARef (acp a)) One)])                                     (* :3460 *)
+  | ADataElements => Some (false, [(QCL, P (cp pf)); (QL, P pf); (QR, P pf)])                      (* :3391, :3508-3509 *)
+  | AData =>                                                                                       (* :3560-3562 data() -> data_elements(), D = 1 only *)
+      match dc with
+      | D1 => Some (false, [(QCL, P (cp pf)); (QR, P pf); (QL, P pf)])
+      | _ => None
+      end
+  | AAssign => Some (true, [(QL, wr pf); (QR, wr pf)])                                             (* :3383 using, :3393-3438 *)
+  | ASwap => Some (false, [(QR, wr pf)])                                                           (* copy/move ctor deleted :3314, :3319: only swap(subarray&&, subarray&&) *)
+  | AElementMoved =>                                                                               (* :3508-3509 &, && -> array_ref<T, D, move_ptr<T, ptr>> *)
+      Some (false, [(QL, match a with A0 => V (KARef AM) Same | _ => ROther end);
+                    (QR, match a with A0 => V (KARef AM) Same | _ => ROther end)])
+  | ADecay => Some (false, [(QCL, RT KArr Same true Lv)])                                          (* :3571 decay() const& -> decay_type const&: the array_ref seen as a const array *)
+  | AUPlus =>                                                                                      (* a non-const array_ref over move_ptr: array(array_ref&) hands data_elements() & = move_ptr *)
+      match a with AM => Some (true, [(QL, RHard); (QR, RHard)]) | _ => None end                  (*   to std::uninitialized_copy (array.hpp:178): does not instantiate *)
   | _ => None
   end.
 
-Definition aref (pc : bool) (dc : dcl) (o : aop) : option ovl := inherit (sub pc dc o) (aref_own pc dc o).
+Definition aref (a : apf) (dc : dcl) (o : aop) : option ovl := inherit (sub (apf_pf a) dc o) (aref_own a dc o).
 
 (* ---------------------------------------------------------------------------------------------- *)
 (* static_array<T, D> : array_ref<T, D, T*>             array.hpp                                   *)
@@ -332,19 +485,19 @@ Definition aref (pc : bool) (dc : dcl) (o : aop) : option ovl := inherit (sub pc
 Definition sarr_own (dc : dcl) (o : aop) : option (bool * ovl) :=
   match o with
   | AIndex => Some (true, [(QR, if ge2 dc then ROther else RT KElem Zero false Rv)])               (* array.hpp:541-542 multi::move(ref::operator[]) *)
-  | ACall0 => Some (true, [(QR, ROther)])                                                          (* :209-210 element_moved() *)
-  | ATaked | ADropped => Some (true, [(QR, ROther)])                                               (* :212-216 *)
+  | ACall0 => Some (true, [(QR, V (KARef AM) Same)])                                               (* :209-210 element_moved() *)
+  | ATaked | ADropped => Some (true, [(QR, V (KSub PM) Same)])                                     (* :212-216 element_moved().taked(n) *)
   | ABegin | AEnd =>                                                                               (* :532-539 *)
-      Some (false, [(QCL, V (KIt true false) Same); (QR, ROther); (QL, V (KIt false false) Same)])
-  | ADataElements => Some (false, [(QCL, P true); (QL, P false); (QR, RHard)])                    (* :621-623; && makes a move_iterator of the wrong type *)
-  | ABase => Some (false, [(QL, P false); (QCL, P true)])                                          (* :629-630 *)
-  | AOrigin => Some (false, [(QL, P false); (QCL, P true)])                                        (* :635-636 *)
+      Some (false, [(QCL, V (KIt true (PI false)) Same); (QR, ROther); (QL, V (KIt false (PI false)) Same)])
+  | ADataElements => Some (false, [(QCL, P (PI true)); (QL, P (PI false)); (QR, RHard)])          (* :621-623; && makes a move_iterator of the wrong type *)
+  | ABase => Some (false, [(QL, P (PI false)); (QCL, P (PI true))])                                (* :629-630 *)
+  | AOrigin => Some (false, [(QL, P (PI false)); (QCL, P (PI true))])                              (* :635-636 *)
   | AAssign => Some (false, [(QN, RMut)])                                                          (* :670-703: no `using`, not ref-qualified or & *)
   | ASwap => Some (false, [(QL, RMut); (QR, RMut)])                                                (* std::swap on lvalues; swap(subarray&&, subarray&&) on rvalues *)
   | _ => None
   end.
 
-Definition sarr (dc : dcl) (o : aop) : option ovl := inherit (aref false dc o) (sarr_own dc o).
+Definition sarr (dc : dcl) (o : aop) : option ovl := inherit (aref A0 dc o) (sarr_own dc o).
 
 (* array<T, D> : static_array<T, D>                     array.hpp:1131-1648 *)
 Definition arr_own (dc : dcl) (o : aop) : option (bool * ovl) :=
@@ -352,139 +505,373 @@ Definition arr_own (dc : dcl) (o : aop) : option (bool * ovl) :=
   | AAssign => Some (false, [(QN, RMut)])                                                          (* array.hpp:1295-1366 *)
   | AMSwap => Some (false, [(QL, RMut)])                                                           (* array::swap(array&) *)
   | AAddrOf => Some (false, [(QR, RDel); (QL, ROther); (QCL, ROther)])                             (* array.hpp:1164-1168 array*, array const* *)
+  | AUPlus => Some (false, [(QCL, RCopy); (QR, RCopy)])                                            (* array.hpp:1560-1561 *)
   | _ => None
   end.
 
 Definition arr (dc : dcl) (o : aop) : option ovl := inherit (sarr dc o) (arr_own dc o).
 
 (* ---------------------------------------------------------------------------------------------- *)
+(* struct-element arrays and views (S = struct {int a; int b;}): the sources of the projections     *)
+(*   element_transformed :1722-1745, :3236-3259; member_cast :1747-1782, :3261-3281;                *)
+(*   reinterpret_array_cast<T2>(count) :1830-1858, :2311-2334, :3297-3306                           *)
+(* ---------------------------------------------------------------------------------------------- *)
+(* element_transformed(f) const& builds transform_ptr<.., element_const_ptr, invoke_result<F const&, element_cref>>, the & overload
+   transform_ptr<.., element_ptr, invoke_result<F const&, element_ref>>; && forwards to &.  pc: element_ptr is S const*. *)
+Inductive functor := FMP | FLR | FLC | FLV.          (* &S::b;  S& -> int&;  S const& -> int const&;  S const& -> int *)
+Definition etrans_res (f : functor) (pc : bool) : kres :=     (* the result over a pointer S* (pc = false) / S const* *)
+  match f, pc with
+  | FMP, false => V (KSub (PT TmR)) Same | FMP, true => V (KSub (PT TcC)) Same
+  | FLR, false => V (KSub (PT TmR)) Same | FLR, true => RHard                 (* invoke_result_t<LR const&, S const&> does not exist: a hard error in the deduced return type *)
+  | FLC, false => V (KSub (PT TmC)) Same | FLC, true => V (KSub (PT TcC)) Same
+  | FLV, false => V (KSub (PT TmV)) Same | FLV, true => V (KSub (PT TcV)) Same
+  end.
+(* the &, && overloads live in const_subarray (:1735, :1745; :3249, :3259): a non-const const_subarray object hands out element_ptr *)
+Definition etrans (f : functor) (pc : bool) (is_csub : bool) : option ovl :=
+  Some ((QCL, etrans_res f true) :: if is_csub && fx_csub_proj then [] else [(QL, etrans_res f pc); (QR, etrans_res f pc)]).
+
+Definition functor_of (o : aop) : option functor :=
+  match o with AETransMP => Some FMP | AETransLR => Some FLR | AETransLC => Some FLC | AETransLV => Some FLV | _ => None end.
+
+(* const_subarray<S, D, S*|S const*> *)
+(* is_csub: the receiver's class is const_subarray itself (not a subarray, which after repair 09 redeclares the mutable overloads) *)
+Definition csubS_gen (is_csub : bool) (pc : bool) (dc : dcl) (o : aop) : option ovl :=
+  let g2 := ge2 dc in
+  match functor_of o with
+  | Some f => etrans f pc is_csub
+  | None =>
+    match o with
+    | AIndex => Some [(QCL, if g2 then V (KCSubS pc) Dec else ROther)]            (* :1143; 1-D: S const& *)
+    | ACall0 => Some [(QCL, V (KCSubS pc) Same)]                                  (* :1528, :2984 *)
+    | AAsConst => if g2 then Some [(QC, V (KSubS true) Same)] else None           (* :1810 *)
+    | ABase => Some [(QC, PS true)]                                               (* :236 *)
+    | AConstCast => if g2 then Some [(QC, V (KSubS false) Same)] else None        (* :1802 *)
+    | AMemberCast =>
+        let m := if pc then RHard else V (KSub (PI false)) Same in                   (* static_cast<rebind<T2>>(&(base_->*pm)) from S const* *)
+        let own := if is_csub && fx_csub_proj then [] else [(QL, m); (QR, m)] in
+        if g2 then                                                                (* :1752 const& -> subarray<T2, D, rebind<T2 const>>; :1766, :1780 &, && -> rebind<T2> *)
+          Some ((QCL, V (KSub (PI true)) Same) :: own)
+        else if fx_csub_proj then Some ((QC, if pc then RHard else V (KSub (PI true)) Same) :: own)   (* :3266 the 1-D body reinterpret_casts base_ to element_type* const& *)
+        else Some [(QC, m)]                                                       (* :3266 member_cast(pm) const -> subarray<T2, 1, rebind<T2>>: one overload *)
+    | AReinterpretN =>
+        if g2 then Some [(QCL, V (KCSub (PI pc)) Inc)]                            (* :1839 const& -> const_subarray<T2, D + 1, rebind<T2> | rebind<T2 const>> *)
+        else Some [(QCL, V (KSub (PI true)) Inc)]                                 (* :3297 const& -> subarray<T2, 2, rebind<T2 const>> *)
+    | _ => None
+    end
+  end.
+
+Definition csubS := csubS_gen true.
+
+Definition subS_own (pc : bool) (dc : dcl) (o : aop) : option (bool * ovl) :=
+  let g2 := ge2 dc in
+  match o with
+  | AIndex => Some (true, [(QR, if g2 then V (KSubS pc) Dec else ROther); (QL, if g2 then V (KSubS pc) Dec else ROther)])   (* :2178-2181 *)
+  | ACall0 => Some (true, [(QL, V (KSubS pc) Same); (QR, V (KSubS pc) Same)])                     (* :2224-2225 *)
+  | ABase => Some (false, [(QCL, PS true); (QL, PS pc); (QR, PS pc)])                              (* :2038-2040 *)
+  | AReinterpretN =>                                                                               (* :2311, :2324 &, && -> subarray<T2, D + 1, rebind<T2>> *)
+      Some (true, [(QL, if pc then RHard else V (KSub (PI false)) Inc); (QR, if pc then RHard else V (KSub (PI false)) Inc)])
+  | _ => None
+  end.
+Definition subS (pc : bool) (dc : dcl) (o : aop) : option ovl :=
+  match functor_of o with
+  | Some f => etrans f pc false
+  | None => inherit (csubS_gen false pc dc o) (subS_own pc dc o)
+  end.
+
+(* array<S, D> : static_array : array_ref<S, D, S*> : subarray<S, D, S*> *)
+Definition arrS_own (dc : dcl) (o : aop) : option (bool * ovl) :=
+  match o with
+  | AIndex => Some (true, [(QR, ROther)])                                                          (* array.hpp:541-542 *)
+  | ACall0 => Some (true, [(QR, ROther)])                                                          (* :209-210 element_moved() *)
+  | ABase => Some (false, [(QL, PS false); (QCL, PS true)])                                        (* :629-630 *)
+  | _ => None
+  end.
+Definition arrS (dc : dcl) (o : aop) : option ovl := inherit (subS false dc o) (arrS_own dc o).
+
+(* the operations a struct-element receiver is modelled with *)
+Definition s_op (o : aop) : bool :=
+  match o with
+  | AIndex | ACall0 | AAsConst | ABase | AConstCast | AETransMP | AETransLR | AETransLC | AETransLV | AMemberCast | AReinterpretN
+  | AMove | ABindRef | ABindCRef => true
+  | _ => false
+  end.
+Definition s_ptr_op (o : aop) : bool :=
+  match o with ADeref | AIndex | APlus1 | AAddrOf | AMove | ABindRef | ABindCRef => true | _ => false end.
+Definition pointerS (pc : bool) (o : aop) : option ovl :=
+  match o with
+  | AIndex | ADeref => Some [(QC, ROther)]            (* S&, S const&: outside the fragment *)
+  | APlus1 => Some [(QC, PS pc)]
+  | _ => None
+  end.
+
+(* ---------------------------------------------------------------------------------------------- *)
 (* handles                                                                                          *)
 (* ---------------------------------------------------------------------------------------------- *)
+Definition cif (c : bool) (pf : pfam) : pfam := if c then cp pf else pf.
+
 (* array_iterator<T, D, ptr, IsConst = c>: every member is const-qualified.  :475-659 (D >= 2), :2354-2539 (D = 1) *)
-Definition iter (c pc : bool) (dc : dcl) (o : aop) : option ovl :=
+Definition iter (c : bool) (pf : pfam) (dc : dcl) (o : aop) : option ovl :=
   if ge2 dc then
     match o with
-    | ADeref => Some [(QC, V (if c then KCSub pc else KSub pc) Dec)]      (* :545 operator*() const -> reference (:501-505) *)
+    | ADeref => Some [(QC, V (if c then KCSub pf else KSub pf) Dec)]      (* :545 operator*() const -> reference (:501-505) *)
     | AIndex | ACall1 =>                                                 (* :560 operator[] -> reference; :600 -> operator[] *)
-        Some [(QC, V (if c then KCSub pc else KSub pc) Dec)]
-    | ACallAll => Some [(QC, E (c || pc))]                               (* :599 operator[](idx)(args...) on the prvalue it returns *)
-    | APlus1 => Some [(QC, V (KIt c pc) Same)]                           (* :559 *)
-    | ABase => Some [(QC, P pc)]                                         (* :632 base() const -> element_ptr whatever IsConst *)
-    | AArrow => Some [(QC, V (KSP true pc) Dec)]                         (* :553 returns ptr_ : ptr_type = subarray_ptr<.., IsConst = true> (:516) *)
+        Some [(QC, V (if c then KCSub pf else KSub pf) Dec)]
+    | ACallAll => Some [(QC, E (cif c pf))]                              (* :599 operator[](idx)(args...) on the prvalue it returns *)
+    | AApply => Some [(QC, E (cif c pf))]                                (* :611 apply(tuple) const *)
+    | APlus1 => Some [(QC, V (KIt c pf) Same)]                           (* :559 *)
+    | ABase => Some [(QC, P pf)]                                         (* :632 base() const -> element_ptr whatever IsConst *)
+    | AArrow => Some [(QC, V (KSP true pf) Dec)]                         (* :553 returns ptr_ : ptr_type = subarray_ptr<.., IsConst = true> (:516) *)
     | _ => None
     end
   else
     match o with
-    | ADeref | AIndex => Some [(QC, E (c || pc))]                        (* :2536, :2453; reference :2383-2395 *)
-    | APlus1 => Some [(QC, V (KIt c pc) Same)]                           (* :2478 *)
-    | ABase => Some [(QC, P (c || pc))]                                  (* :2481 static_cast<pointer>, pointer :2376-2380 *)
-    | AArrow => Some [(QC, P (c || pc))]                                 (* :2457 *)
+    | ADeref | AIndex => Some [(QC, E (cif c pf))]                       (* :2536, :2453; reference :2383-2395 *)
+    | APlus1 => Some [(QC, V (KIt c pf) Same)]                           (* :2478 *)
+    | ABase | AData => Some [(QC, P (cif c pf))]                         (* :2481 static_cast<pointer>, pointer :2376-2380; :2496 data() -> base() *)
+    | AArrow => Some [(QC, P (cif c pf))]                                (* :2457 *)
     | _ => None
     end.
 
 (* subarray_ptr<T, D, ptr, layout, IsConst = c>  :316-470 *)
-Definition sptr (c pc : bool) (o : aop) : option ovl :=
+Definition sptr (c : bool) (pf : pfam) (o : aop) : option ovl :=
   match o with
-  | ADeref | AIndex => Some [(QC, V (if c then KCSub pc else KSub pc) Same)]   (* :390, :407 -> reference (:348-351) *)
-  | APlus1 => Some [(QC, V (KSP c pc) Same)]                                    (* iterator_facade operator+ *)
-  | ABase => Some [(QC, P (c || pc))]                                           (* :415 base() const -> element_const_ptr when IsConst *)
+  | ADeref | AIndex => Some [(QC, V (if c then KCSub pf else KSub pf) Same)]   (* :390, :407 -> reference (:348-351) *)
+  | APlus1 => Some [(QC, V (KSP c pf) Same)]                                    (* iterator_facade operator+ *)
+  | ABase => Some [(QC, P (cif c pf))]                                          (* :415 base() const -> element_const_ptr when IsConst *)
   | AArrow => Some [(QC, ROther)]                                               (* :392 a local proxy class *)
   | _ => None
   end.
 
 (* elements_range_t<ptr, layout>  :868-1002 *)
-Definition erange (pc : bool) (o : aop) : option ovl :=
+Definition erange (pf : pfam) (o : aop) : option ovl :=
   match o with
-  | AIndex | AFront | ABack => Some [(QCL, E true); (QR, E pc); (QL, E pc)]          (* :923-925, :966-973 *)
-  | ABegin | AEnd => Some [(QCL, V (KEI true) Same); (QR, V (KEI pc) Same); (QL, V (KEI pc) Same)]   (* :957-964 *)
-  | ABase => Some [(QN, P pc); (QC, P true)]                                          (* :900-901 *)
-  | AAssign => if pc then None else Some [(QN, RMut)]                                 (* :977 operator=(elements_range_t&&); :982-994 SFINAE away for a const range *)
-  | AMSwap => Some [(QL, wr pc); (QR, wr pc)]                                         (* :945-948 *)
+  | AIndex | AFront | ABack => Some [(QCL, E (cp pf)); (QR, E pf); (QL, E pf)]          (* :923-925, :966-973 *)
+  | ABegin | AEnd => Some [(QCL, V (KEI (cp pf)) Same); (QR, V (KEI pf) Same); (QL, V (KEI pf) Same)]   (* :957-964 *)
+  | ABase => Some [(QN, P pf); (QC, P (cp pf))]                                          (* :900-901 *)
+  | AAssign => if pconst pf then None else Some [(QN, wr pf)]                            (* :977 operator=(elements_range_t&&); :982-994 SFINAE away for a const range *)
+  | AMSwap => Some [(QL, wr pf); (QR, wr pf)]                                            (* :945-948 *)
   | _ => None
   end.
 
 (* elements_iterator_t<ptr, layout>  :750-866 *)
-Definition eiter (pc : bool) (o : aop) : option ovl :=
+Definition eiter (pf : pfam) (o : aop) : option ovl :=
   match o with
-  | AIndex | ADeref => Some [(QC, E pc)]                                              (* :846-847 *)
-  | APlus1 => Some [(QC, V (KEI pc) Same)]                                            (* :855 *)
-  | AArrow => Some [(QC, P pc)]                                                       (* :845 *)
-  | ABase => Some [(QN, P pc); (QC, P true)]                                          (* :780-781 *)
+  | AIndex | ADeref => Some [(QC, E pf)]                                              (* :846-847 *)
+  | APlus1 => Some [(QC, V (KEI pf) Same)]                                            (* :855 *)
+  | AArrow => Some [(QC, P pf)]                                                       (* :845 *)
+  | ABase => Some [(QN, P pf); (QC, P (cp pf))]                                       (* :780-781 *)
   | _ => None
   end.
 
 (* cursor_t<ptr, D, strides>  :661-747 *)
-Definition cursor (pc : bool) (dc : dcl) (o : aop) : option ovl :=
+Definition cursor (pf : pfam) (dc : dcl) (o : aop) : option ovl :=
   match o with
-  | AIndex | ACall1 => Some [(QC, if ge2 dc then V (KCu pc) Dec else E pc)]          (* :702-721 *)
-  | ACallAll => Some [(QC, E pc)]                                                     (* :723 *)
-  | ADeref => Some [(QC, E pc)]                                                       (* :740 *)
-  | ABase => Some [(QC, P pc)]                                                        (* :743 *)
-  | AArrow => Some [(QC, P pc)]                                                       (* :741 *)
+  | AIndex | ACall1 => Some [(QC, if ge2 dc then V (KCu pf) Dec else E pf)]          (* :702-721 *)
+  | ACallAll => Some [(QC, E pf)]                                                     (* :723 *)
+  | ADeref => Some [(QC, E pf)]                                                       (* :740 *)
+  | ABase => Some [(QC, P pf)]                                                        (* :743 *)
+  | AArrow => Some [(QC, P pf)]                                                       (* :741 *)
   | _ => None
   end.
 
-(* raw pointers and element references: the language's own rules *)
-Definition pointer (pc : bool) (o : aop) : option ovl :=
+(* element pointers: int*, int const* (the language's own rules); transform_ptr utility.hpp:78-157; move_ptr utility.hpp:24-66 *)
+Definition pointer (pf : pfam) (o : aop) : option ovl :=
   match o with
-  | AIndex | ADeref => Some [(QC, E pc)]
-  | APlus1 => Some [(QC, P pc)]
+  | AIndex | ADeref => Some [(QC, E pf)]                                              (* utility.hpp:111, :135; :62-63 *)
+  | APlus1 => Some [(QC, P pf)]                                                       (* utility.hpp:129; :55 *)
+  | ABase =>                                                                          (* utility.hpp:109 base() const -> Ptr const&: the wrapped S* whatever the reference *)
+      match pf with PT t => Some [(QC, RT (KPtS (und_const t)) Zero true Lv)] | _ => None end
   | _ => None
   end.
 
 Definition elemref (o : aop) : option ovl :=
   match o with
-  | APlus1 | ATilde => Some [(QC, RVal)]             (* int + 1, ~int: prvalues *)
+  | APlus1 | ATilde | AUPlus => Some [(QC, RVal)]    (* int + 1, ~int, +int: prvalues *)
   | AAssign | ASwap => Some [(QL, RMut)]             (* only a non-const lvalue int is assignable / swappable *)
   | _ => None
   end.
 
 Definition is_handle (k : kind) : bool :=
-  match k with KIt _ _ | KEI _ | KCu _ | KPt _ | KSP _ _ => true | _ => false end.
+  match k with KIt _ _ | KEI _ | KCu _ | KPt _ | KSP _ _ | KPtS _ => true | _ => false end.
 (* kinds without an operator& of their own: the built-in address-of of an lvalue yields a pointer to the object itself *)
 Definition builtin_addr (k : kind) : bool :=
-  match k with KIt _ _ | KEI _ | KCu _ | KPt _ | KSP _ _ | KER _ => true | _ => false end.
+  match k with KIt _ _ | KEI _ | KCu _ | KPt _ | KSP _ _ | KER _ | KPtS _ => true | _ => false end.
+Definition is_view_kind (k : kind) : bool :=
+  match k with KArr | KSArr | KARef _ | KSub _ | KCSub _ => true | _ => false end.
+Definition is_s_kind (k : kind) : bool := match k with KArrS | KSubS _ | KCSubS _ => true | _ => false end.
 
 Definition members (k : kind) (dc : dcl) (o : aop) : option ovl :=
   match k with
   | KArr => arr dc o
   | KSArr => sarr dc o
-  | KARef pc => aref pc dc o
-  | KSub pc => sub pc dc o
-  | KCSub pc => csub pc dc o
-  | KIt c pc => iter c pc dc o
-  | KER pc => erange pc o
-  | KEI pc => eiter pc o
-  | KCu pc => cursor pc dc o
-  | KPt pc => pointer pc o
-  | KSP c pc => sptr c pc o
+  | KARef a => aref a dc o
+  | KSub pf => sub pf dc o
+  | KCSub pf => csub pf dc o
+  | KIt c pf => iter c pf dc o
+  | KER pf => erange pf o
+  | KEI pf => eiter pf o
+  | KCu pf => cursor pf dc o
+  | KPt pf => pointer pf o
+  | KSP c pf => sptr c pf o
   | KElem => elemref o
+  | KArrS => arrS dc o
+  | KSubS pc => subS pc dc o
+  | KCSubS pc => csubS pc dc o
+  | KPtS pc => pointerS pc o
+  end.
+
+(* ---------------------------------------------------------------------------------------------- *)
+(* (b) conversions                                                                                  *)
+(* ---------------------------------------------------------------------------------------------- *)
+(* multi::detail::implicit_cast<To>(From) is well-formed: int* -> int const*; move_ptr -> int* -> int const* (operator Ptr()
+   utility.hpp:42); transform_ptr(Other const&) utility.hpp:104-106 looks at the wrapped pointers only (S* in every pair of
+   variants): its reference type is not compared, so the rebind to const converts back *)
+Definition pconv (a b : pfam) : bool :=
+  match a, b with
+  | PI x, PI y => negb x || y
+  | PM, PM => true
+  | PM, PI _ => true
+  | PT TmC, PT TmR => negb fx_tptr_conv
+  | PT x, PT y => Bool.eqb (und_const x) (und_const y) || negb (und_const x)
+  | _, _ => false
+  end.
+Definition defctor (pf : pfam) : bool := match pf with PT _ => false | _ => true end.   (* `typename Other::pointer{}` *)
+
+Inductive cres := CYes | CNo | CHard.
+(* array_iterator, D >= 2: copy; :527-541 from array_iterator<E, D, PPtr> (IsConst = false only) with a convertible pointer *)
+Definition conv_it2 (c : bool) (pf : pfam) (c' : bool) (pf' : pfam) : bool :=
+  (Bool.eqb c c' && pfam_eqb pf pf') || (negb c && pconv pf pf').
+(* array_iterator, D = 1: copy; :2437-2443 implicit from Other with implicit_cast<Ptr>(typename Other::pointer{}), pointer = the
+   const pointer for a const_iterator (:2376-2380); :2430-2434 explicit from the mutable iterator over the same pointer *)
+Definition conv_it1 (e : bool) (c : bool) (pf : pfam) (c' : bool) (pf' : pfam) : bool :=
+  (Bool.eqb c c' && pfam_eqb pf pf') || (defctor pf && pconv (cif c pf) pf') || (e && negb c && pfam_eqb pf pf').
+(* subarray_ptr: :360-362 from IsConst = false, same pointer; :367-375 from any subarray_ptr with a convertible pointer, whatever IsConst *)
+Definition conv_sp (c : bool) (pf : pfam) (c' : bool) (pf' : pfam) : bool :=
+  pconv pf pf' && (negb fx_sptr_conv || c' || negb c).
+(* elements_iterator_t: copy; :783-785 implicit when the pointer converts; :786-787 explicit, unconstrained: ambiguous with the
+   implicit one when both are viable, a hard error in its body when the pointer does not convert *)
+Definition conv_ei (e : bool) (pf pf' : pfam) : cres :=
+  if pfam_eqb pf pf' then CYes
+  else if pconv pf pf' then (if e then CNo else CYes)
+  else (if e then CHard else CNo).
+(* cursor_t: the converting constructors are private (:693-700): copy only.  Element pointers: pconv *)
+(* the value families (`int` and `int const` references are one family) have no conversion rows: the canonical target type is
+   not the type of every member of the family *)
+Definition is_value_family (pf : pfam) : bool := match pf with PT TmV | PT TcV => true | _ => false end.
+Definition handle_pf (k : kind) : option pfam :=
+  match k with KIt _ pf | KSP _ pf | KEI pf | KCu pf | KPt pf => Some pf | _ => None end.
+Definition conv_handle (k : kind) (g2 : bool) (f : form) (c' p' : bool) : option (kind * cres) :=
+  let e := match f with FE => true | _ => false end in
+  let yn (b : bool) := if b then CYes else CNo in
+  if match handle_pf k with Some pf => is_value_family pf | None => false end then None else
+  match k with
+  | KIt c pf => let t := variant p' pf in
+                Some (KIt c' t, yn (if g2 then conv_it2 c pf c' t else conv_it1 e c pf c' t))
+  | KSP c pf => let t := variant p' pf in Some (KSP c' t, yn (conv_sp c pf c' t))
+  | KEI pf => if c' then None else let t := variant p' pf in Some (KEI t, conv_ei e pf t)
+  | KCu pf => if c' then None else let t := variant p' pf in Some (KCu t, yn (pfam_eqb pf t))
+  | KPt pf => if c' then None else let t := variant p' pf in Some (KPt t, yn (pconv pf t))
+  | _ => None
+  end.
+Definition is_yes (r : cres) : bool := match r with CYes => true | _ => false end.
+(* x == t: array_iterator and subarray_ptr compare through friends / a facade that convert either side; elements_iterator_t and
+   transform_ptr through a member that converts the right-hand side; raw pointers and move_ptr always; cursor_t has no operator== *)
+Definition eq_handle (k : kind) (g2 : bool) (cst : bool) : option cres :=
+  let yn (b : bool) := if b then CYes else CNo in
+  if match handle_pf k with Some pf => is_value_family pf | None => false end then None else
+  match k with
+  | KIt c pf =>                                      (* :565 / :2538 any IsConst over the same pointer; :571 / :2527 the right-hand side converts *)
+      let t := mp pf in
+      Some (yn (pfam_eqb pf t || (if g2 then conv_it2 cst t c pf else conv_it1 false cst t c pf)))
+  | KSP c pf =>                                      (* :421 any subarray_ptr-like, unconstrained: base() == other.base() in the body; for *)
+      let t := mp pf in                              (*   transform_ptr that is the member utility.hpp:137, whose argument converts to the left-hand type *)
+      Some (match pf with PT _ => if pconv (cif cst t) (cif c pf) then CYes else CHard | _ => CYes end)
+  | KEI pf => let t := if cst then cp pf else mp pf in Some (yn (is_yes (conv_ei false t pf)))      (* :859 *)
+  | KCu pf => Some CNo
+  | KPt pf => let t := if cst then cp pf else mp pf in
+              Some (yn (match pf with PT _ => pconv t pf | _ => true end))                           (* utility.hpp:137 *)
+  | _ => None
+  end.
+
+(* construction of a view from a view: the move constructors subarray(subarray&&) :1930, const_subarray(const_subarray&&) :1049
+   bind a non-const rvalue of the same pointer type (of a derived class too); every copy constructor is private / protected /
+   deleted; array_ref<T, D, int const*> is constructible from an array or array_ref over int* / move_ptr (:3340-3350) *)
+Definition view_pf (k : kind) : option pfam :=
+  match k with
+  | KArr | KSArr => Some (PI false)
+  | KARef a => Some (apf_pf a)
+  | KSub pf | KCSub pf => Some pf
+  | _ => None
+  end.
+Definition conv_view (k : kind) (t : vtarget) (p' : bool) : option (kind * ovl) :=
+  match view_pf k with
+  | None => None
+  | Some pf =>
+      if is_value_family pf then None else
+      let tp := variant p' pf in
+      match t with
+      | VSub => Some (KSub tp, match k with KCSub _ => [] | _ => if pfam_eqb pf tp then [(QR, V (KSub tp) Same)] else [] end)
+      | VCSub => Some (KCSub tp, if pfam_eqb pf tp then [(QR, V (KCSub tp) Same)] else [])
+      | VARef =>
+          match apf_of tp with
+          | None => None
+          | Some a => Some (KARef a, match k, a with
+                                     | KArr, A1 | KSArr, A1 | KARef A0, A1 | KARef AM, A1 => [(QCL, V (KARef A1) Same)]
+                                     | _, _ => []
+                                     end)
+          end
+      end
   end.
 
 (* one step at the level of (kind, dimensionality class, const, category) *)
 Definition astep_k (k : kind) (dc : dcl) (c : bool) (ct : cat) (o : aop) : kres + outcome :=
+  let via (l : option ovl) : kres + outcome :=
+    match l with
+    | None => inr No
+    | Some l => match resolve c ct l with None => inr No | Some r => inl r end
+    end in
   match o with
   | AMove => inl (RT k Same c Rv)                    (* std::move(x) *)
   | ABindRef => inl (RT k Same c Lv)                 (* auto&& x = e;  then the name x *)
   | ABindCRef => inl (RT k Same true Lv)             (* auto const& x = e; *)
   | AAddrOf =>                                       (* &x *)
-      if builtin_addr k then match ct with Lv => inl ROther | Rv => inr No end
+      if is_s_kind k then inr NA
+      else if builtin_addr k then match ct with Lv => inl ROther | Rv => inr No end
       else match k with
-           | KElem => match ct with Lv => inl (RT (KPt c) Zero false Rv) | Rv => inr No end   (* int* or int const* *)
-           | _ => match members k dc o with
-                  | None => inr No
-                  | Some l => match resolve c ct l with None => inr No | Some r => inl r end
-                  end
+           | KElem => match ct with Lv => inl (RT (KPt (PI c)) Zero false Rv) | Rv => inr No end   (* int* or int const* *)
+           | _ => via (members k dc o)
            end
+  | AConv f c' p' =>
+      match conv_handle k (ge2 dc) f c' p' with
+      | None => inr NA
+      | Some (t, CYes) => inl (RT t Same false (match f with FA => Lv | _ => Rv end))
+      | Some (_, CNo) => inr No
+      | Some (_, CHard) => inl RHard
+      end
+  | AEqM | AEqC =>
+      match eq_handle k (ge2 dc) (match o with AEqC => true | _ => false end) with
+      | None => inr NA
+      | Some CYes => inl ROther
+      | Some CNo => inr No
+      | Some CHard => inl RHard
+      end
+  | AToView t e p' =>
+      match conv_view k t p' with
+      | None => inr NA
+      | Some (_, l) => via (Some l)
+      end
+  | AToArr =>                                                       (* multi::array<int, D>(x): array.hpp:330-420 copies the elements *)
+      if is_view_kind k then
+        match k, c with KARef AM, false => inl RHard | _, _ => inl RCopy end     (* see AUPlus of array_ref *)
+      else inr NA
   | _ =>
-      if is_handle k && (match o with AAssign | ASwap | AMSwap => true | _ => false end) then inr NA
-      else match members k dc o with
-           | None => inr No
-           | Some l => match resolve c ct l with
-                       | None => inr No
-                       | Some r => inl r
-                       end
-           end
+      if is_s_kind k && negb (s_op o) then inr NA
+      else if (match k with KPtS _ => negb (s_ptr_op o) | _ => false end) then inr NA
+      else if (match o with AUPlus | ADecay => negb (is_view_kind k) | _ => false end) then inr NA
+      else if (match o with AETransMP | AETransLR | AETransLC | AETransLV | AMemberCast | AReinterpretN => negb (is_s_kind k) | _ => false end) then inr NA
+      else if (match o with AReinterpret => negb (match view_pf k with Some (PI _) => true | _ => false end) | _ => false end) then inr NA
+      else if is_handle k && (match o with AAssign | ASwap | AMSwap => true | _ => false end) then inr NA
+      else via (members k dc o)
   end.
 
 Definition shift (dd : delta) (d : nat) : nat :=
@@ -495,6 +882,7 @@ Definition astep (s : state) (o : aop) : outcome :=
   | inr out => out
   | inl (RT k dd c ct) => To (mkSt k (shift dd (sd s)) c ct)
   | inl RVal => ToVal
+  | inl RCopy => ToCopy (mkSt KArr (sd s) false Rv)
   | inl ROther => ToOther
   | inl RMut => Mut
   | inl RNoDef => NoDef
@@ -520,34 +908,78 @@ Definition writable (s : state) : bool := existsb (fun m => is_mut (astep s m)) 
 (* read-only typed: what the type of the expression promises *)
 Definition ro_k (k : kind) (c : bool) : bool :=
   match k with
-  | KArr | KSArr | KARef false | KSub false => c             (* const-qualified owner / view over a mutable pointer *)
-  | KARef true | KSub true | KCSub _ => true                 (* pointer to const, or the read-only interface class *)
-  | KIt ci pc => ci || pc                                    (* const_iterator, or iterator over const elements *)
-  | KER pc => pc || c                                        (* elements range: const elements or const-qualified range *)
-  | KEI pc | KCu pc | KPt pc => pc                           (* handles are shallow: only the pointee type counts *)
-  | KSP ci pc => ci || pc                                    (* const_subarray_ptr, or pointer over const elements *)
+  | KArr | KSArr | KArrS => c                                (* const-qualified owner *)
+  | KARef a => pconst (apf_pf a) || c                        (* view over a pointer to const / with a const reference, or const-qualified *)
+  | KSub pf => pconst pf || c
+  | KSubS pc => pc || c
+  | KCSub _ | KCSubS _ => true                               (* the read-only interface class *)
+  | KIt ci pf => ci || pconst pf                             (* const_iterator, or iterator over const elements *)
+  | KER pf => pconst pf || c                                 (* elements range: const elements or const-qualified range *)
+  | KEI pf | KCu pf | KPt pf => pconst pf                    (* handles are shallow: only the pointee type counts *)
+  | KPtS pc => pc
+  | KSP ci pf => ci || pconst pf                             (* const_subarray_ptr, or pointer over const elements *)
   | KElem => c
   end.
 Definition ro (s : state) : bool := ro_k (sk s) (sc s).
 
 (* the six kinds of root of the property's quantifier *)
 Definition root_kind (k : kind) : bool :=
-  match k with KArr | KSArr | KARef false | KSub false => true | _ => false end.
+  match k with
+  | KArr | KSArr | KARef A0 | KSub (PI false) => true                  (* array, static_array, array_ref, view *)
+  | KArrS | KSub (PT TmR) | KSub PM => true                            (* struct-element array, projection view, element_moved view *)
+  | _ => false
+  end.
 Definition is_root (s : state) : bool :=
   root_kind (sk s) && match scat s with Lv => true | Rv => false end && Nat.leb 1 (sd s).
 Definition const_root (s : state) : bool := is_root s && sc s.
 Definition mutable_root (s : state) : bool := is_root s && negb (sc s).
 
-(* the one step at which the code still hands a mutable result to a read-only receiver: the exclusion predicate of
-   the partial theorem.  (Five more such steps of the snapshot -- const_iterator[] / (), const_subarray::elements() on a
-   non-const object, origin() const&, addressof()/operator& of a non-const const_subarray, const_subarray_ptr::base() --
-   were repaired by the commits 0cc5cd0, c42ae62, 0310609, 49fc935, f94579a and are ordinary rows now.) *)
+(* the steps at which the code still hands a mutable result to a read-only receiver: the exclusion predicate of the partial
+   theorem.  (Five such steps of the snapshot -- const_iterator[] / (), const_subarray::elements() on a non-const object,
+   origin() const&, addressof()/operator& of a non-const const_subarray, const_subarray_ptr::base() -- were repaired by the
+   commits 0cc5cd0, c42ae62, 0310609, 49fc935, f94579a and are ordinary rows.) *)
 Definition hole_iter_base (k : kind) (g2 : bool) (o : aop) : bool :=     (* array_ref.hpp:632 base() const -> element_ptr whatever IsConst *)
   match k, o with
-  | KIt true false, ABase => g2
+  | KIt true pf, ABase => g2 && negb (pconst pf)
   | _, _ => false
   end.
-Definition hole_k (k : kind) (g2 : bool) (o : aop) : bool := hole_iter_base k g2 o.
+Definition hole_tptr_base (k : kind) (o : aop) : bool :=                 (* utility.hpp:109 transform_ptr::base(): the wrapped S* of a pointer whose reference is const / a value *)
+  match k, o with
+  | KPt (PT t), ABase => pconst (PT t) && negb (und_const t)
+  | _, _ => false
+  end.
+Definition hole_sptr_conv (k : kind) (o : aop) : bool :=                 (* array_ref.hpp:367-375 subarray_ptr(subarray_ptr<.., OtherIsConst> const&): IsConst = true converts to false *)
+  match k, o with
+  | KSP true pf, AConv _ false p' => negb fx_sptr_conv && negb (pconst (variant p' pf))
+  | _, _ => false
+  end.
+Definition hole_tptr_conv (k : kind) (g2 : bool) (o : aop) : bool :=     (* utility.hpp:104-108 transform_ptr(Other const&): <.., int const&> converts to <.., int&>, *)
+  match o with                                                            (*   and with it every handle that propagates the convertibility of its pointer *)
+  | AConv _ c' false =>
+      negb fx_tptr_conv &&
+      match k with
+      | KPt (PT TmC) | KEI (PT TmC) => true
+      | KSP _ (PT TmC) => negb c'
+      | KIt false (PT TmC) => g2 && negb c'
+      | _ => false
+      end
+  | _ => false
+  end.
+Definition hole_static_cast (k : kind) (o : aop) : bool :=               (* array_ref.hpp:1700 [[deprecated("violates constness")]] static_array_cast<T2>() const&; :3228 *)
+  match o with AStaticCast => is_view_kind k | _ => false end.
+Definition hole_member_cast1 (k : kind) (g2 : bool) (o : aop) : bool :=  (* array_ref.hpp:3266 1-D member_cast() const -> subarray<T2, 1, rebind<T2>> *)
+  match o with AMemberCast => negb fx_csub_proj && is_s_kind k && negb g2 | _ => false end.
+Definition hole_csub_proj (k : kind) (g2 : bool) (o : aop) : bool :=      (* array_ref.hpp:1735, :1745, :3249, :3259 const_subarray::element_transformed() &, &&; *)
+  match k, o with                                                         (*   :1766, :1780 const_subarray::member_cast() &, &&: a non-const const_subarray hands out element_ptr *)
+  | KCSubS false, (AETransMP | AETransLR) => negb fx_csub_proj
+  | KCSubS false, AMemberCast => negb fx_csub_proj && g2
+  | _, _ => false
+  end.
+(* the library's named ways out of const-ness: const_array_cast() (its const_cast) and mutable_base() *)
+Definition escape_op (o : aop) : bool := match o with AConstCast | AMutableBase => true | _ => false end.
+Definition hole_k (k : kind) (g2 : bool) (o : aop) : bool :=
+  hole_iter_base k g2 o || hole_tptr_base k o || hole_sptr_conv k o || hole_tptr_conv k g2 o
+  || hole_static_cast k o || hole_member_cast1 k g2 o || hole_csub_proj k g2 o || escape_op o.
 Definition hole (s : state) (o : aop) : bool := hole_k (sk s) (ge2 (dcls (sd s))) o.
 
 Fixpoint clean_path (p : list aop) (s : state) : bool :=
@@ -565,9 +997,13 @@ Definition keeps_mut_op (o : aop) : bool :=
   | ABegin | AEnd | ADeref | APlus1 | AElements | AHome
   | ASliced | AStrided | ATaked | ADropped | ARotated | AUnrotated | ATransposed | ATilde
   | ADiagonal | APartitioned | AFlatted | ARange | ADataElements | AOrigin | AAddrOf | AAddressOf | ABindRef | AMove => true
+  (* the projections of a mutable array stay mutable when the functor / member allows it; conversions to the mutable variant *)
+  | AETransMP | AETransLR | AMemberCast | AReinterpretN | AReinterpret | AStaticCast | AConstCast | AElementMoved
+  | AMutableBase | AApply | AData => true
+  | AConv _ false false | AToView VSub _ false => true
   | _ => false
   end.
-Definition owning (k : kind) : bool := match k with KArr | KSArr => true | _ => false end.
+Definition owning (k : kind) : bool := match k with KArr | KSArr | KArrS => true | _ => false end.
 (* an rvalue owning array gives its elements away (move_iterator, moved elements): not a view *)
 Definition keeps_mut_k (k : kind) (ct : cat) (o : aop) : bool :=
   keeps_mut_op o && negb (owning k && match ct with Rv => true | Lv => false end).
@@ -584,10 +1020,15 @@ Definition is_view (k : kind) : bool :=
 Definition is_array_ref (k : kind) : bool := match k with KARef _ => true | _ => false end.
 Definition elem_lvalue (s : state) : bool :=
   match sk s, scat s with KElem, Lv => true | _, _ => false end.
-Definition assignable_k (k : kind) (ct : cat) : bool :=     (* element lvalue, view, array or element range *)
+(* element lvalue, view, array or element range (over a pointer that yields lvalues: a move_ptr view hands out int&&,
+   its elements can be moved from, not assigned to) *)
+Definition assignable_k (k : kind) (ct : cat) : bool :=
+  let lv (pf : pfam) := match pf with PM => false | _ => true end in
   match k with
   | KElem => match ct with Lv => true | Rv => false end
-  | KArr | KSArr | KARef _ | KSub _ | KCSub _ | KER _ => true
+  | KArr | KSArr => true
+  | KARef a => lv (apf_pf a)
+  | KSub pf | KCSub pf | KER pf => lv pf
   | _ => false
   end.
 Definition assignable_thing (s : state) : bool := assignable_k (sk s) (scat s).
@@ -607,7 +1048,7 @@ Definition array_assign (dst src : vobj) (fresh : nat) : vobj :=   (* array::ope
 (* copy construction of a named (lvalue) object into a new object of the same type *)
 Definition copy_constructible (k : kind) : bool :=
   match k with
-  | KSub _ | KCSub _ => false       (* :1049 protected, :1921 private copy constructors *)
+  | KSub _ | KCSub _ | KSubS _ | KCSubS _ => false       (* :1049 protected, :1921 private copy constructors *)
   | KARef _ => false                (* :3314 deleted *)
   | KER _ => false                  (* :933 deleted *)
   | _ => true
@@ -621,18 +1062,29 @@ Definition resizable (k : kind) : bool := match k with KArr => true | _ => false
    and element references)                                                                          *)
 (* ---------------------------------------------------------------------------------------------- *)
 Definition bools := [false; true].
+Definition all_pfams : list pfam := [PI false; PI true; PT TmR; PT TmC; PT TcC; PT TmV; PT TcV; PM].
 Definition all_kinds : list kind :=
-  [KArr; KSArr] ++ map KARef bools ++ map KSub bools ++ map KCSub bools
-  ++ flat_map (fun c => map (KIt c) bools) bools
-  ++ map KER bools ++ map KEI bools ++ map KCu bools ++ map KPt bools
-  ++ flat_map (fun c => map (KSP c) bools) bools ++ [KElem].
+  [KArr; KSArr] ++ map KARef [A0; A1; AM] ++ map KSub all_pfams ++ map KCSub all_pfams
+  ++ flat_map (fun c => map (KIt c) all_pfams) bools
+  ++ map KER all_pfams ++ map KEI all_pfams ++ map KCu all_pfams ++ map KPt all_pfams
+  ++ flat_map (fun c => map (KSP c) all_pfams) bools ++ [KElem]
+  ++ [KArrS] ++ map KSubS bools ++ map KCSubS bools ++ map KPtS bools.
+Definition dim0_kind (k : kind) : bool := match k with KPt _ | KPtS _ | KElem => true | _ => false end.
+(* the 25 kinds over int* / int const* of the first version of the table *)
+Definition old_kind (k : kind) : bool :=
+  match k with
+  | KArr | KSArr | KElem | KARef A0 | KARef A1 => true
+  | KSub (PI _) | KCSub (PI _) | KIt _ (PI _) | KER (PI _) | KEI (PI _) | KCu (PI _) | KPt (PI _) | KSP _ (PI _) => true
+  | _ => false
+  end.
 Definition kind_dims (k : kind) : list nat :=
-  match k with KPt _ | KElem => [0] | _ => [1; 2; 3] end.
+  if dim0_kind k then [0] else [1; 2; 3].
 Definition table_states : list state :=
   flat_map (fun k => flat_map (fun d => flat_map (fun c => map (fun ct => mkSt k d c ct) [Lv; Rv]) bools) (kind_dims k)) all_kinds.
-Definition states_upto (maxd : nat) : list state :=
+(* maxd: dimensionalities of the 25 old kinds; maxd_new: of the kinds over the pointer families of the projections *)
+Definition states_upto (maxd maxd_new : nat) : list state :=
   flat_map (fun k => flat_map (fun d => flat_map (fun c => map (fun ct => mkSt k d c ct) [Lv; Rv]) bools)
-                                (match k with KPt _ | KElem => [0] | _ => seq 1 maxd end)) all_kinds.
+                                (if dim0_kind k then [0] else seq 1 (if old_kind k then maxd else maxd_new))) all_kinds.
 Definition rows_of (sts : list state) : list (state * aop * outcome) :=
   flat_map (fun s => map (fun o => (s, o, astep s o)) all_ops) sts.
 Definition table_rows : list (state * aop * outcome) := rows_of table_states.
